@@ -122,10 +122,16 @@ def overwrite_findings(path):
                         ok = True
                 if e2.name in ow.CONTENT_RELEASERS:
                     k, flds = ow.CONTENT_RELEASERS[e2.name]
-                    if k < len(e2.args) and e.addr[3] in flds and sym.norm(e2.args[k]) == sym.norm(e.addr[1]):
+                    # reads the field when called: only a call before the overwrite releases the old value
+                    if j < i and k < len(e2.args) and e.addr[3] in flds and sym.norm(e2.args[k]) == sym.norm(e.addr[1]):
                         ok = True
                 if e2.name.startswith('llvm.memcpy') and j < i and len(e2.args) > 1 and sym.norm(e2.args[1]) == sym.norm(e.addr[1]):
-                    ok = True      # the whole record was saved by value before
+                    # the whole record was saved by value before - unless that member of the copy was cleared since
+                    dst = e2.args[0]
+                    dropped = any(x.kind == 'store' and x.addr[0] == 'fld' and x.addr[1] == dst and x.addr[3] == e.addr[3] and x.val == sym.C0
+                                  for x in evs[j + 1:i])
+                    if not dropped:
+                        ok = True
             elif e2.kind == 'store' and j != i and sym.norm(e2.val) == old:
                 ok = True          # old value saved somewhere else
             elif e2.kind == 'ret' and e2.val is not None and sym.norm(e2.val) == old:
